@@ -403,6 +403,46 @@ func (t *vC19) fusion(v, x map[uint32]float64) {
 		if !ok {
 			t.bad("fusion-value", f.name, fmt.Sprintf("v=%v x=%v got %v want one of %v", v, x, got, accept[:1]))
 		}
+		// a side without scores may be an allocated empty map or a nil map (what a caller
+		// that never ran that modality has in hand): same answer, no panic
+		if len(v) == 0 || len(x) == 0 {
+			for rep := 1; rep < 4; rep++ {
+				va, xa := vc, xc
+				if rep&1 != 0 {
+					if len(v) != 0 {
+						continue
+					}
+					va = nil
+				}
+				if rep&2 != 0 {
+					if len(x) != 0 {
+						continue
+					}
+					xa = nil
+				}
+				t.c.Evaluations++
+				var alt map[uint32]float64
+				var pan interface{}
+				func() {
+					defer func() { pan = recover() }()
+					alt = f.f.Combine(va, xa)
+				}()
+				if pan != nil {
+					t.bad("fusion-panicked", f.name+":nil-map-for-an-empty-side", fmt.Sprintf("v=%v (nil=%v) x=%v (nil=%v): %v", v, va == nil, x, xa == nil, pan))
+				} else {
+					okAlt := false
+					for _, m := range accept {
+						if vMapEq(alt, m) {
+							okAlt = true
+							break
+						}
+					}
+					if !okAlt {
+						t.bad("fusion-value", f.name+":nil-map-for-an-empty-side", fmt.Sprintf("v=%v (nil=%v) x=%v (nil=%v): got %v, with empty maps %v", v, va == nil, x, xa == nil, alt, got))
+					}
+				}
+			}
+		}
 		if len(v) > 0 && len(x) > 0 {
 			t.c.Nontrivial(fmt.Sprintf("fuse|%s|%v|%v", f.name, v, x))
 		}
